@@ -192,6 +192,7 @@ def gen_project(rng, pid, nsrc=None, modes=(0,), allow_errors=True, edges="dag",
     for i, s in enumerate(srcs):
         for j, t in enumerate(srcs):
             if i == j: continue
+            if edges == "none": continue
             if edges == "dag" and j <= i: continue
             if r.chance(1, 3): deps[s].append(t)
         if edges == "any" and r.chance(1, 12): deps[s].append(s)
